@@ -338,4 +338,84 @@ Section TracerFacts2.
       cbn [fst snd]. apply C5. intros t' Ht'. rewrite B3, A2. apply Hother. apply in_or_app. right. exact Ht'.
     Qed.
   End SolveAllEntry.
+  (* ---------------------------------------------------------------- the property's second sentence, for solve() *)
+  Section SolveShape.
+    Variables (cfg : tcfg) (a : targ).
+    Variables (ev before after : hook).
+    Hypothesis ev_shape : shape_pres ev.
+    Hypothesis before_shape : shape_pres before.
+    Hypothesis after_shape : shape_pres after.
+    Variable L : Type.
+    Notation traced_run_periods := (traced_run_periods num sub absf ltb isfin zero cfg a false ev before after L).
+
+    (* solve(trace=..., reset=False) over periods whose Traces are empty: a period that is visited once and SOLVED ends
+       up — after the WHOLE multi-period run — with labels start, before, 0, 1..k, end (k = its iteration count >= 1),
+       snapshot j = the traced variables after its pass j, last snapshot = the solution stored when it finished.
+       (s1, tr1) is the instance when the period's turn comes, s2 the state right after its solve_t.) *)
+    Theorem solve_trace_shape_solved d o (l1 l2 : list (Z * L)) t lab s tr acc p s1 tr1 acc1 s2 tr2 :
+      truthy a = true ->
+      ready_at cfg a false (map fst (l1 ++ (t, lab) :: l2)) (vals_of s) tr ->
+      py_pos (length tr) t = Some p -> length tr = length (status s) ->
+      (forall t', In t' (map fst l1 ++ map fst l2) -> py_pos (length tr) t' <> Some p) ->
+      is_empty num (nth p tr empty_trace) = true ->
+      traced_run_periods d o l1 s tr acc = ((s1, tr1), Ret acc1) ->
+      traced_solve_t cfg a false ev before after d o t s1 tr1 = ((s2, tr2), Ret true) ->
+      let names := names_of cfg (length (vals_of s1)) a in
+      let v0 := seeded num zero d o s1 p in
+      let v1 := fst (before t (errors o) (catch_first o) 0%nat v0) in
+      exists k, (1 <= k)%nat /\
+        status s2 = upd p Solved (status s1) /\ iters s2 = upd p (Z.of_nat k) (iters s1) /\
+        nth p (snd (fst (traced_run_periods d o (l1 ++ (t, lab) :: l2) s tr acc))) empty_trace
+        = mkTrace names
+            (LStart :: LBefore :: map LIter (seq 0 (S k)) ++ [LEnd])
+            (snap (vals_of s1) t names :: snap v0 t names
+             :: map (fun j => snap (st_after num ev o t v1 j) t names) (seq 0 (S k)) ++ [snap (vals_of s2) t names]).
+    Proof.
+      intros Ha Hall Hp Hlen Hother HX Hl1 Hrun. cbv zeta.
+      destruct (trace_of_period_within_solve cfg a false ev before after ev_shape before_shape after_shape L Ha
+                  d o l1 l2 t lab s tr acc p s1 tr1 acc1 Hall Hp Hother Hl1) as (E1 & Hrt & E2 & E3 & Efin).
+      rewrite Hrun in Efin. cbn [fst snd] in Efin. rewrite Efin.
+      destruct Hrt as (Hv & _).
+      assert (Hp1 : py_pos (length tr1) t = Some p) by (rewrite E2; exact Hp).
+      assert (Hlen1 : length tr1 = length (status s1)) by congruence.
+      assert (HX1 : is_empty num (nth p tr1 empty_trace) = true) by (rewrite E1; exact HX).
+      exact (trace_shape_solved num sub absf ltb isfin zero cfg a ev before after ev_shape before_shape after_shape
+               d o t s1 tr1 p s2 tr2 Ha Hv Hp1 Hlen1 HX1 Hrun).
+    Qed.
+
+    (* ... and an UNSOLVED one (flag False; with failures='raise' the run stops there): no 'end', the trace stops
+       after its last pass k = iterations, and that last snapshot is what is stored *)
+    Theorem solve_trace_shape_unsolved d o (l1 l2 : list (Z * L)) t lab s tr acc p s1 tr1 acc1 s2 tr2 out :
+      truthy a = true ->
+      ready_at cfg a false (map fst (l1 ++ (t, lab) :: l2)) (vals_of s) tr ->
+      py_pos (length tr) t = Some p -> length tr = length (status s) ->
+      (forall t', In t' (map fst l1 ++ map fst l2) -> py_pos (length tr) t' <> Some p) ->
+      is_empty num (nth p tr empty_trace) = true ->
+      traced_run_periods d o l1 s tr acc = ((s1, tr1), Ret acc1) ->
+      traced_solve_t cfg a false ev before after d o t s1 tr1 = ((s2, tr2), out) ->
+      out = Ret false \/ out = Raise NonConvergenceError ->
+      let names := names_of cfg (length (vals_of s1)) a in
+      let v0 := seeded num zero d o s1 p in
+      let v1 := fst (before t (errors o) (catch_first o) 0%nat v0) in
+      exists k x, x <> Solved /\
+        status s2 = upd p x (status s1) /\ iters s2 = upd p (Z.of_nat k) (iters s1) /\
+        vals_of s2 = st_after num ev o t v1 k /\
+        nth p (snd (fst (traced_run_periods d o (l1 ++ (t, lab) :: l2) s tr acc))) empty_trace
+        = mkTrace names
+            (LStart :: LBefore :: map LIter (seq 0 (S k)))
+            (snap (vals_of s1) t names :: snap v0 t names
+             :: map (fun j => snap (st_after num ev o t v1 j) t names) (seq 0 (S k))).
+    Proof.
+      intros Ha Hall Hp Hlen Hother HX Hl1 Hrun Hout. cbv zeta.
+      destruct (trace_of_period_within_solve cfg a false ev before after ev_shape before_shape after_shape L Ha
+                  d o l1 l2 t lab s tr acc p s1 tr1 acc1 Hall Hp Hother Hl1) as (E1 & Hrt & E2 & E3 & Efin).
+      rewrite Hrun in Efin. cbn [fst snd] in Efin. rewrite Efin.
+      destruct Hrt as (Hv & _).
+      assert (Hp1 : py_pos (length tr1) t = Some p) by (rewrite E2; exact Hp).
+      assert (Hlen1 : length tr1 = length (status s1)) by congruence.
+      assert (HX1 : is_empty num (nth p tr1 empty_trace) = true) by (rewrite E1; exact HX).
+      exact (trace_shape_unsolved num sub absf ltb isfin zero cfg a ev before after ev_shape before_shape after_shape
+               d o t s1 tr1 p s2 tr2 out Ha Hv Hp1 Hlen1 HX1 Hrun Hout).
+    Qed.
+  End SolveShape.
 End TracerFacts2.
